@@ -262,6 +262,8 @@ class Code:
                     if n.id not in fixed:
                         return ast.Name(id=f'__mv_{n.id}__', ctx=n.ctx)
                     return n
+            if isinstance(node, ast.Name):
+                return None         # a bare word: text search, not a wildcard
             node = T().visit(node)
             return node
         return None
